@@ -93,7 +93,7 @@ pub fn minimise(cluster: &ClusterCfg, trace: &[Action], v: &Violation, budget_s:
             Action::Restart { .. } => 24,
             Action::StartNode { .. } => 25,
             Action::Decommission { .. } => 26,
-            Action::Bogus { .. } => 27,
+            Action::Bogus { .. } | Action::StrangerVote { .. } => 27,
             Action::Stabilise { .. } => 28,
             Action::Lockstep { .. } => 29,
         }
@@ -125,7 +125,8 @@ pub fn minimise(cluster: &ClusterCfg, trace: &[Action], v: &Violation, budget_s:
             | Action::Restart { n }
             | Action::StartNode { n }
             | Action::Decommission { n }
-            | Action::Bogus { n, .. } => *n,
+            | Action::Bogus { n, .. }
+            | Action::StrangerVote { n, .. } => *n,
             Action::Deliver { k } | Action::Drop { k } | Action::Dup { k } => k.t,
             _ => return None,
         })
